@@ -62,7 +62,7 @@ def run_variant(v, repo, available):
         for e in edits:
             apply_edit(d, *e)
         results = {}
-        targets = props if kind == 'breaking' else [p for p in (props or ALL_PROPS)]
+        targets = props if kind in ('breaking', 'undecided') else [p for p in (props or ALL_PROPS)]
         for p in targets:
             if p not in available:
                 continue
@@ -87,6 +87,8 @@ def main():
         vs.append((vid, props, edits, 'breaking'))
     for (vid, props, edits) in variants.PRESERVING:
         vs.append((vid, props, edits, 'preserving'))
+    for (vid, props, edits) in getattr(variants, 'UNDECIDED', []):
+        vs.append((vid, props, edits, 'undecided'))
     if args.only:
         sel = set(args.only.split(','))
         vs = [v for v in vs if v[0] in sel or (set(v[1] or []) & sel)]
@@ -98,7 +100,7 @@ def main():
                 bad += 1
                 continue
             for p, (code, out) in sorted(results.items()):
-                want = 1 if kind == 'breaking' else 0
+                want = {'breaking': 1, 'preserving': 0, 'undecided': 2}[kind]
                 status = 'ok' if code == want else 'WRONG'
                 if code != want:
                     bad += 1
